@@ -155,11 +155,33 @@ class C02(Spec):
                       correspondence="client.FetchUnknown == Client.fetch_unknown")
             b.parallel = False
             batches.append(b)
+        # embedded objects inside a COLLECTION served by another host (the replies of a post): pub's constructors must
+        # judge them against the document they arrived in, not against the post that links to the collection
+        import c09
+        base = netgen.pick_port_base(rng)
+        cases = [c09.case_of(c09.SPEC.post_world(rng, base, force_cross=True)) for _ in range(40 if tier == "quick" else 2000)]
+        b = Batch("c02-collections", cases, config="[network]\ntimeout_seconds = 2\n", env={"VERIF_SIM_PORT_BASE": str(base), "VERIF_CASE_TIMEOUT": "30"},
+                  timeout=900, correspondence="Children().Harvest verdicts == Listing.reply_entry (forged embedded entries)")
+        b.parallel = False
         runner.run_batches(self, scratch, binary, batches, report)
+        saved = self.oracle_filter
+        self.oracle_filter = {"results_equal_model", "well_formed_result"}     # entries are fetched concurrently: request ORDER is C08's
+        try:
+            runner.run_batches(self, scratch, binary, [b], report)
+        finally:
+            self.oracle_filter = saved
 
     def post_check(self, case, res):
         """independent provenance oracle on the implementation's results"""
         t = res["impl"]
+        if "forged_pos" in case.meta:
+            if not t or t[0] != 0:
+                return "the listing could not be built (result class %s)" % (t[0] if t else None)
+            val, _ = decode_jv(t, 2)
+            pos = case.meta["forged_pos"]
+            if pos < len(val) and val[pos]:
+                return "entry %d, embedded by another host under an id it does not serve, is shown as a genuine reply" % pos
+            return None
         i = 0
         for o in case.meta["ops"]:
             cls = t[i]
@@ -188,7 +210,7 @@ class C02(Spec):
         return None
 
     def nontrivial(self, case, res):
-        return bool(case.meta.get("lies"))
+        return bool(case.meta.get("lies")) or "forged_pos" in case.meta
 
 
 SPEC = C02()
